@@ -94,6 +94,18 @@ class TNDyn(TNOps):
                 return False
         return True
 
+    def spectrum(self, H):
+        key = (H.uid, H.version)
+        c = getattr(self, '_spec_cache', None)
+        if c is None or c[0] != key:
+            M = H.dense
+            self._spec_cache = c = (key, np.linalg.eigvalsh((M + M.conj().T) / 2))
+        return c[1]
+
+    def spectral_spread(self, H):
+        ev = self.spectrum(H)
+        return float(ev[-1] - ev[0])
+
     def max_local_dim(self, psi, sites):
         bd = bond_dims(psi.ref, 'mps')
         d = self.d
@@ -146,7 +158,7 @@ class TNDyn(TNOps):
             return st
         self.resync(psi)
         if psi.retired:
-            self.check(False, ['C08', 'C02'], 'object_unusable', 'TDVP left a state that cannot be contracted')
+            self.unusable(psi, ['C08', 'C02'], 'TDVP left a state that cannot be contracted')
             return 'ok'
         v1 = psi.dense
         sc = psi.scale
@@ -183,8 +195,17 @@ class TNDyn(TNOps):
             else:
                 want = sla.expm(-dt * n * M) @ v0
                 dev = float(np.linalg.norm(v1 - want))
-                self.check(dev <= DYN_TOL * max(1.0, float(np.linalg.norm(want))), 'C09', 'exact_on_complete_manifold',
-                           lambda: f'|psi - expm(-dt n H) psi0|={dev:.3e} (dt_rel={dt_rel!r}, n={n}, sites={sites}, numiter={numiter}, L={self.L}, d={self.d})')
+                nw = float(np.linalg.norm(want))
+                # Rounding model: the input is known to eps, and step k adds an error of relative size eps to a state of norm
+                # <= |U_k|, which the remaining steps amplify by at most |U_(n-k)|; for Hermitian H these norms multiply to
+                # |U| = |exp(-dt n H)|_2 = exp(n max_lambda(-Re(dt) lambda)).  So the error scale is |U| - equal to one for
+                # unitary evolution, below one for damped evolution (where an absolute bound would see nothing), and above
+                # max(1, |expected|) when the start vector has lost its components along the growing directions.
+                ev = self.spectrum(H)
+                growth = float(np.exp(min(float(np.max(-dt.real * n * ev)), 600.0)))
+                bound = DYN_TOL * max(growth, nw)
+                self.check(dev <= bound, 'C09', 'exact_on_complete_manifold',
+                           lambda: f'|psi - expm(-dt n H) psi0|={dev:.3e}, |expected|={nw:.3e} (dt_rel={dt_rel!r}, n={n}, sites={sites}, numiter={numiter}, L={self.L}, d={self.d})')
                 self.probe('complete_manifold_judged')
         return 'ok'
 
@@ -224,7 +245,9 @@ class TNDyn(TNOps):
         if psi.retired:
             return 'ok'
         r1, r2 = float(ret[0]), float(ret[1])
-        amp = float(np.exp(2 * abs(dt_rel.real) * n))
+        # forward errors (relative to the state's norm then) are amplified on the way back by the ratio of the fastest
+        # to the slowest rate: exp(|Re dt| n (lambda_max - lambda_min)), never more than exp(2 |Re dt| |H| n)
+        amp = float(np.exp(min(2 * abs(dt_rel.real) * n, abs(dt.real) * n * self.spectral_spread(H) + 1.0)))
         dev = float(np.linalg.norm(r2 * psi.dense - v0))
         self.check(dev <= DYN_TOL * amp, 'C09', 'time_reversible', lambda: f'|r2*psi(back) - psi0|={dev:.3e} (dt_rel={dt_rel!r}, n={n}, numiter={numiter}, bonds={bond_dims(psi.ref, "mps")})')
         if dt_rel.real == 0.0:
@@ -273,7 +296,7 @@ class TNDyn(TNOps):
         self.resync(psi)
         P = 'C10'
         if psi.retired:
-            self.check(False, [P, 'C02'], 'object_unusable', 'DMRG left a state that cannot be contracted')
+            self.unusable(psi, [P, 'C02'], 'DMRG left a state that cannot be contracted')
             return 'ok'
         E = np.asarray(E, dtype=float)
         if not self.check(E.shape == (numsweeps,) and np.all(np.isfinite(E)), P, 'energies_shape', lambda: f'returned {E!r}'):
